@@ -671,11 +671,11 @@ def resolve_kwdefaults(sign: inspect.Signature) -> Dict[str, Any]:
 # This flag is used to avoid recursively checking contracts for the same function or instance while
 # contract checking is already in progress.
 #
-# The key refers to the thread and the asyncio task which are checking (see ``_current_flow``) and to the id() of
-# the function (preconditions and postconditions) or instance (invariants).
+# The marks (see ``_Mark``) refer to the thread and the asyncio task which are checking (see ``_current_flow``) and
+# to the id() of the function (preconditions and postconditions) or instance (invariants).
 _IN_PROGRESS = contextvars.ContextVar(
     "_IN_PROGRESS", default=None
-)  # type: contextvars.ContextVar[Optional[FrozenSet[Tuple[Tuple[int, int], int]]]]
+)  # type: contextvars.ContextVar[Optional[FrozenSet["_Mark"]]]
 
 
 def _current_flow() -> Tuple[int, int]:
@@ -699,6 +699,35 @@ def _current_flow() -> Tuple[int, int]:
             task = None
 
     return (threading.get_ident(), 0 if task is None else id(task))
+
+
+class _Mark:
+    """
+    Mark that a flow of control is checking the contracts of a function or the invariants of an instance.
+
+    The mark is deactivated as soon as the checking is over. The marks inherited through the copies of the context
+    (which nobody removes) are thus ignored once their call has finished, even if the identifier of the thread
+    or the task which made them is re-used later on.
+    """
+
+    __slots__ = ("flow", "target", "active")
+
+    def __init__(self, flow: Tuple[int, int], target: int) -> None:
+        """Initialize an active mark with the given values."""
+        self.flow = flow
+        self.target = target
+        self.active = True
+
+
+def _is_in_progress(
+    in_progress: Iterable[_Mark], flow: Tuple[int, int], target: int
+) -> bool:
+    """Check whether the ``flow`` itself is currently checking the ``target``."""
+    for mark in in_progress:
+        if mark.active and mark.target == target and mark.flow == flow:
+            return True
+
+    return False
 
 
 def decorate_with_checker(func: CallableT) -> CallableT:
@@ -781,19 +810,21 @@ def decorate_with_checker(func: CallableT) -> CallableT:
             if in_progress is None:
                 in_progress = frozenset()
 
-            id_func = (_current_flow(), id_of_func)
+            flow = _current_flow()
 
             # If the wrapper is already checking the contracts for the wrapped function, avoid a recursive loop
             # by skipping any subsequent contract checks for the same function.
             #
             # This has to happen outside of the try-finally block below: the re-entrant call must not remove
             # the mark which belongs to the outer call still checking its contracts.
-            if id_func in in_progress:
+            if _is_in_progress(in_progress, flow, id_of_func):
                 return await func(*args, **kwargs)
+
+            mark = _Mark(flow=flow, target=id_of_func)
 
             # Use try-finally instead of ExitStack for performance.
             try:
-                _IN_PROGRESS.set(in_progress | {id_func})
+                _IN_PROGRESS.set(in_progress | {mark})
 
                 (preconditions, snapshots, postconditions) = _unpack_pre_snap_posts(
                     wrapper
@@ -825,6 +856,7 @@ def decorate_with_checker(func: CallableT) -> CallableT:
                         snapshots=snapshots, resolved_kwargs=resolved_kwargs
                     )
             finally:
+                mark.active = False
                 _IN_PROGRESS.set(in_progress)
 
             # The contract checking is suspended only while the contracts of the function are being checked.
@@ -839,8 +871,10 @@ def decorate_with_checker(func: CallableT) -> CallableT:
             if not postconditions:
                 return result
 
+            mark = _Mark(flow=flow, target=id_of_func)
+
             try:
-                _IN_PROGRESS.set(in_progress | {id_func})
+                _IN_PROGRESS.set(in_progress | {mark})
 
                 if postconditions:
                     resolved_kwargs["result"] = result
@@ -853,6 +887,7 @@ def decorate_with_checker(func: CallableT) -> CallableT:
 
                 return result
             finally:
+                mark.active = False
                 _IN_PROGRESS.set(in_progress)
 
     else:
@@ -871,19 +906,21 @@ def decorate_with_checker(func: CallableT) -> CallableT:
             if in_progress is None:
                 in_progress = frozenset()
 
-            id_func = (_current_flow(), id_of_func)
+            flow = _current_flow()
 
             # If the wrapper is already checking the contracts for the wrapped function, avoid a recursive loop
             # by skipping any subsequent contract checks for the same function.
             #
             # This has to happen outside of the try-finally block below: the re-entrant call must not remove
             # the mark which belongs to the outer call still checking its contracts.
-            if id_func in in_progress:
+            if _is_in_progress(in_progress, flow, id_of_func):
                 return func(*args, **kwargs)
+
+            mark = _Mark(flow=flow, target=id_of_func)
 
             # Use try-finally instead of ExitStack for performance.
             try:
-                _IN_PROGRESS.set(in_progress | {id_func})
+                _IN_PROGRESS.set(in_progress | {mark})
 
                 (preconditions, snapshots, postconditions) = _unpack_pre_snap_posts(
                     wrapper
@@ -919,6 +956,7 @@ def decorate_with_checker(func: CallableT) -> CallableT:
                         snapshots=snapshots, resolved_kwargs=resolved_kwargs, func=func
                     )
             finally:
+                mark.active = False
                 _IN_PROGRESS.set(in_progress)
 
             # The contract checking is suspended only while the contracts of the function are being checked.
@@ -933,8 +971,10 @@ def decorate_with_checker(func: CallableT) -> CallableT:
             if not postconditions:
                 return result
 
+            mark = _Mark(flow=flow, target=id_of_func)
+
             try:
-                _IN_PROGRESS.set(in_progress | {id_func})
+                _IN_PROGRESS.set(in_progress | {mark})
 
                 if postconditions:
                     resolved_kwargs["result"] = result
@@ -949,6 +989,7 @@ def decorate_with_checker(func: CallableT) -> CallableT:
 
                 return result
             finally:
+                mark.active = False
                 _IN_PROGRESS.set(in_progress)
 
     # Copy __doc__ and other properties so that doctests can run
@@ -1147,14 +1188,15 @@ def _decorate_with_invariants(func: CallableT, is_init: bool) -> CallableT:
             if in_progress is None:
                 in_progress = frozenset()
 
-            id_instance = (_current_flow(), id(instance))
-            if id_instance in in_progress:
+            flow = _current_flow()
+            if _is_in_progress(in_progress, flow, id(instance)):
                 # This constructor was called from the constructor of a derived class (``super().__init__(...)``)
                 # or from another operation on the instance which is still in progress: the object is not yet
                 # fully constructed, so the invariants are checked by the outermost constructor only.
                 return func(*args, **kwargs)
 
-            _IN_PROGRESS.set(in_progress | {id_instance})
+            mark = _Mark(flow=flow, target=id(instance))
+            _IN_PROGRESS.set(in_progress | {mark})
 
             # ExitStack is not used here due to performance.
             try:
@@ -1165,6 +1207,7 @@ def _decorate_with_invariants(func: CallableT, is_init: bool) -> CallableT:
 
                 return result
             finally:
+                mark.active = False
                 _IN_PROGRESS.set(in_progress)
 
     else:
@@ -1211,9 +1254,10 @@ def _decorate_with_invariants(func: CallableT, is_init: bool) -> CallableT:
 
                 # The following dunder indicates whether another invariant is currently being checked. If so,
                 # we need to suspend any further invariant check to avoid endless recursion.
-                id_instance = (_current_flow(), id(instance))
-                if id_instance not in in_progress:
-                    _IN_PROGRESS.set(in_progress | {id_instance})
+                flow = _current_flow()
+                if not _is_in_progress(in_progress, flow, id(instance)):
+                    mark = _Mark(flow=flow, target=id(instance))
+                    _IN_PROGRESS.set(in_progress | {mark})
                 else:
                     # Do not check any invariants to avoid endless recursion.
                     return await func(*args, **kwargs)
@@ -1230,6 +1274,7 @@ def _decorate_with_invariants(func: CallableT, is_init: bool) -> CallableT:
 
                     return result
                 finally:
+                    mark.active = False
                     _IN_PROGRESS.set(in_progress)
 
         else:
@@ -1265,9 +1310,10 @@ def _decorate_with_invariants(func: CallableT, is_init: bool) -> CallableT:
                 if in_progress is None:
                     in_progress = frozenset()
 
-                id_instance = (_current_flow(), id(instance))
-                if id_instance not in in_progress:
-                    _IN_PROGRESS.set(in_progress | {id_instance})
+                flow = _current_flow()
+                if not _is_in_progress(in_progress, flow, id(instance)):
+                    mark = _Mark(flow=flow, target=id(instance))
+                    _IN_PROGRESS.set(in_progress | {mark})
                 else:
                     # Do not check any invariants to avoid endless recursion.
                     return func(*args, **kwargs)
@@ -1284,6 +1330,7 @@ def _decorate_with_invariants(func: CallableT, is_init: bool) -> CallableT:
 
                     return result
                 finally:
+                    mark.active = False
                     _IN_PROGRESS.set(in_progress)
 
     functools.update_wrapper(wrapper=wrapper, wrapped=func)
